@@ -70,6 +70,23 @@ impl<T: Item> ObsBuf<T> {
 /// what was observed before a panic is still there after the unwind.
 pub fn apply<T: Item>(h: &mut Option<Dyn<T>>, op: &Op, out: &mut ObsBuf<T>) {
     use Op::*;
+    // An operation that collects would reserve `size_hint().0` items up front. No corpus enum
+    // has more than a few thousand variants, so a larger claim is already the observation; do
+    // not let the harness die in the allocator because of it (both sides run this same code).
+    if matches!(
+        op,
+        Collect | RevCollect | StepBy(_) | Skip(_) | SkipRev(_) | EnumerateRev | TakeCollect(_)
+            | RevTakeCollect(_) | StepByTake(..)
+    ) {
+        if let Some(it) = h.as_ref() {
+            let sh = it.size_hint();
+            if sh.0 > (1 << 24) {
+                let _ = write!(out.text, "refusing to collect: size_hint {:?}", sh);
+                *h = None;
+                return;
+            }
+        }
+    }
     if op.is_consuming() {
         let it = match h.take() {
             Some(it) => it,
@@ -746,6 +763,9 @@ pub fn run_history(m: &'static Module, history: &[Event], opts: &ExecOpts) -> Ru
                     let mut it = Dyn(fi());
                     let mut nm = Dyn(fnm());
                     let len0 = nm.len();
+                    if it.size_hint().0 > (1 << 24) && nm.size_hint().0 > (1 << 24) {
+                        panic!("refusing to collect: size_hint {:?}", it.size_hint());
+                    }
                     if k > 0 {
                         it.nth(k - 1);
                         nm.nth(k - 1);
